@@ -687,6 +687,12 @@ func zzC0102Build(cfg *zzC0102Cfg, dir string, rng *rand.Rand) (z *zzC0102Srv, e
 	// As the package's own tests do: replace the upstreams after Prepare.
 	z.s.conf.UpstreamConfig.Upstreams = []upstream.Upstream{z.up}
 
+	if cfg.Prot == "expired" {
+		if err = z.awaitReenabled(); err != nil {
+			return nil, err
+		}
+	}
+
 	return z, nil
 }
 
@@ -945,7 +951,12 @@ func (z *zzC0102Srv) setProt(want, cur string, rng *rand.Rand) (err error) {
 		// a pause that has run out
 		if err = protAPI(false, 1); err == nil {
 			time.Sleep(5 * time.Millisecond)
-			z.pDeadline = "past"
+			// The server notices that the pause has run out when it is asked
+			// (a request, or the status page) and switches protection back on
+			// in a goroutine of its own; wait for that like a status poll
+			// would, so that a later protection request cannot be overtaken
+			// by it (that race is not what C01/C02 are about).
+			err = z.awaitReenabled()
 		}
 	}
 	if err != nil {
@@ -963,6 +974,24 @@ func (z *zzC0102Srv) setProt(want, cur string, rng *rand.Rand) (err error) {
 	}
 
 	return nil
+}
+
+// awaitReenabled waits until the server has switched protection back on after
+// a pause that has run out.
+func (z *zzC0102Srv) awaitReenabled() (err error) {
+	deadline := time.Now().Add(5 * time.Second)
+	for {
+		_, _ = z.s.UpdatedProtectionStatus()
+		if on, until := z.f.ProtectionStatus(); on && until == nil {
+			z.pFlag, z.pDeadline = true, "none"
+
+			return nil
+		}
+		if time.Now().After(deadline) {
+			return fmt.Errorf("harness: protection not re-enabled within 5 s after a pause ran out")
+		}
+		time.Sleep(200 * time.Microsecond)
+	}
 }
 
 // failedRebuild injects a fault into a rebuild of the engines: the file of an
